@@ -214,6 +214,29 @@ Theorem C13_decode_encode_point_ed_prime_subgroup : forall c, ecodec_ok c -> for
 Proof. exact edp_roundtrip. Qed.
 Print Assumptions C13_decode_encode_point_ed_prime_subgroup.
 
+(* BLS12-381 G1 (ZCash flags; the identity has a flag of its own, no reserved encoding): members
+   of the subgroup survive both formats *)
+Theorem C13_decode_encode_point_blsg1_compressed : forall c, wcodec_ok c ->
+  (1 <= wc_len c)%nat -> 8 * wc_p c <= 256 ^ Z.of_nat (wc_len c) -> forall P,
+  w_on_curve (wc c) P = true -> w_canon c P -> w_in_subgroup c P ->
+  blsg1_dec_c c (blsg1_enc_c c P) = Some P.
+Proof. exact blsg1_roundtrip_c. Qed.
+Print Assumptions C13_decode_encode_point_blsg1_compressed.
+
+Theorem C13_decode_encode_point_blsg1_uncompressed : forall c, wcodec_ok c ->
+  (1 <= wc_len c)%nat -> 8 * wc_p c <= 256 ^ Z.of_nat (wc_len c) -> forall P,
+  w_on_curve (wc c) P = true -> w_canon c P -> w_in_subgroup c P ->
+  blsg1_dec_u c (blsg1_enc_u c P) = Some P.
+Proof. exact blsg1_roundtrip_u. Qed.
+Print Assumptions C13_decode_encode_point_blsg1_uncompressed.
+
+Theorem C13_blsg1_decode_encode_subgroup_points : forall P, prime bls12381_p ->
+  w_on_curve (wc blsg1_codec) P = true -> w_canon blsg1_codec P -> w_in_subgroup blsg1_codec P ->
+  blsg1_dec_c blsg1_codec (blsg1_enc_c blsg1_codec P) = Some P /\
+  blsg1_dec_u blsg1_codec (blsg1_enc_u blsg1_codec P) = Some P.
+Proof. exact blsg1_roundtrip_instance. Qed.
+Print Assumptions C13_blsg1_decode_encode_subgroup_points.
+
 (* ---- the named curves (primality of the modulus is the only hypothesis left) ----------------- *)
 
 Theorem C13_k256_decode_encode_all_points : forall P, prime (wp_p k256_params) ->
